@@ -828,4 +828,97 @@ Proof.
     destruct (N.eqb_spec y b) as [->|M3]; [simpl_ne; reflexivity|]. simpl_ne. reflexivity.
 Qed.
 
+Theorem halfcell_to_midpoint_wf E n ks l a b c w cnt w' cnt' :
+  let A2 := beta w 2 a in let B2 := beta w 2 b in
+  wf2 n w -> l < n ->
+  NoDup [l; a; b; A2; B2] -> ~ In 0 [l; a; b; A2; B2] ->
+  beta w 1 l = a -> beta w 1 a = b -> beta w 1 b = l -> beta w 2 l = 0 ->
+  run E (collapse_halfcell_to_midpoint n ks b l a) c w cnt = (Done tt, w', cnt') ->
+  wf2 n w'.
+Proof.
+  intros A2 B2 W Hln Hnd Hz B1 B2' B3 Zl Hr.
+  pose proof W as [W1 W2 W3 W4 W5 W6].
+  assert (Z : l <> 0 /\ a <> 0 /\ b <> 0 /\ A2 <> 0 /\ B2 <> 0).
+  { cbn [In] in Hz. repeat split; intros Q; apply Hz; rewrite Q; tauto. }
+  destruct Z as (Z1 & Z2 & Z3 & Z4 & Z5).
+  assert (D : (l <> a /\ l <> b /\ l <> A2 /\ l <> B2) /\ (a <> b /\ a <> A2 /\ a <> B2) /\ (b <> A2 /\ b <> B2) /\ A2 <> B2).
+  { clear - Hnd. repeat match goal with Hq : NoDup (_ :: _) |- _ => inversion Hq; clear Hq; subst end.
+    cbn [In] in *. repeat split; intros Q; intuition congruence. }
+  destruct D as ((Q1 & Q2 & Q3 & Q4) & (Q5 & Q6 & Q7) & (Q8 & Q9) & Q10).
+  assert (Han : a < n) by (rewrite <- B1; apply W2; [reflexivity|exact Hln]).
+  assert (Hbn : b < n) by (rewrite <- B2'; apply W2; [reflexivity|exact Han]).
+  assert (HAn : A2 < n) by (apply W2; [reflexivity|exact Han]).
+  assert (HBn : B2 < n) by (apply W2; [reflexivity|exact Hbn]).
+  assert (P0a : beta w 0 a = l) by (rewrite <- B1; apply W3; [exact Hln|rewrite B1; exact Z2]).
+  assert (P0b : beta w 0 b = a) by (rewrite <- B2'; apply W3; [exact Han|rewrite B2'; exact Z3]).
+  assert (P0l : beta w 0 l = b) by (rewrite <- B3; apply W3; [exact Hbn|rewrite B3; exact Z1]).
+  assert (G2A : beta w 2 A2 = a) by (apply (W5 a Han); exact Z4).
+  assert (G2B : beta w 2 B2 = b) by (apply (W5 b Hbn); exact Z5).
+  destruct (halfcell_to_midpoint_topology E n ks l a b c w cnt w' cnt' Hnd Hz B1 B2' B3 Zl Hr) as (Hb0 & Hu0).
+  fold A2 B2 in Hb0, Hu0.
+  set (three := fun y => (y =? l) || (y =? a) || (y =? b)).
+  assert (Hb : forall i y, beta w' i y =
+     if three y then (if i <? 3 then 0 else beta w i y)
+     else if i =? 2 then (if y =? B2 then A2 else if y =? A2 then B2 else beta w 2 y)
+     else beta w i y) by (intros i y; rewrite Hb0; reflexivity).
+  assert (Hu : forall y, unused w' y = if three y then true else unused w y) by (intros y; rewrite Hu0; reflexivity).
+  clear Hb0 Hu0.
+  assert (Three : forall y, three y = true <-> (y = l \/ y = a \/ y = b)).
+  { intros y. unfold three. rewrite !orb_true_iff, !N.eqb_eq. tauto. }
+  assert (In1 : forall y, three y = true -> three (beta w 1 y) = true).
+  { intros y Hy. apply Three in Hy. apply Three. destruct Hy as [->|[->| ->]]; rewrite ?B1, ?B2', ?B3; tauto. }
+  assert (In0 : forall y, three y = true -> three (beta w 0 y) = true).
+  { intros y Hy. apply Three in Hy. apply Three. destruct Hy as [->|[->| ->]]; rewrite ?P0a, ?P0b, ?P0l; tauto. }
+  assert (TA : three A2 = false) by (destruct (three A2) eqn:Q; [apply Three in Q; intuition congruence|reflexivity]).
+  assert (TB : three B2 = false) by (destruct (three B2) eqn:Q; [apply Three in Q; intuition congruence|reflexivity]).
+  assert (T0 : three 0 = false) by (destruct (three 0) eqn:Q; [apply Three in Q; intuition congruence|reflexivity]).
+  constructor.
+  - intros i Hi. rewrite Hb, T0. destruct (i =? 2) eqn:E2; [|apply W1; exact Hi].
+    destruct (N.eqb_spec 0 B2); [congruence|]. destruct (N.eqb_spec 0 A2); [congruence|]. apply W1; reflexivity.
+  - intros i y Hi Hy. rewrite Hb.
+    assert (Zn' : 0 < n) by (apply (N.le_lt_trans _ l); [apply N.le_0_l|exact Hln]).
+    destruct (three y); [destruct (i <? 3); [exact Zn'|apply W2; assumption]|].
+    destruct (i =? 2); [|apply W2; assumption].
+    destruct (y =? B2); [exact HAn|]. destruct (y =? A2); [exact HBn|]. apply W2; [reflexivity|exact Hy].
+  - intros y Hy Hnz. rewrite Hb in Hnz. destruct (three y) eqn:Sy; [change (1 <? 3) with true in Hnz; congruence|].
+    change (1 =? 2) with false in Hnz. cbv iota in Hnz.
+    rewrite (Hb 1 y), Sy. change (1 =? 2) with false. cbv iota.
+    rewrite Hb. change (0 =? 2) with false.
+    destruct (three (beta w 1 y)) eqn:Sz.
+    + apply In0 in Sz. rewrite (W3 y Hy Hnz) in Sz. congruence.
+    + cbv iota. apply W3; assumption.
+  - intros y Hy Hnz. rewrite Hb in Hnz. destruct (three y) eqn:Sy; [change (0 <? 3) with true in Hnz; congruence|].
+    change (0 =? 2) with false in Hnz. cbv iota in Hnz.
+    rewrite (Hb 0 y), Sy. change (0 =? 2) with false. cbv iota.
+    rewrite Hb. change (1 =? 2) with false.
+    destruct (three (beta w 0 y)) eqn:Sz.
+    + apply In1 in Sz. rewrite (W4 y Hy Hnz) in Sz. congruence.
+    + cbv iota. apply W4; assumption.
+  - intros y Hy Hnz. rewrite Hb in Hnz. destruct (three y) eqn:Sy; [change (2 <? 3) with true in Hnz; congruence|].
+    change (2 =? 2) with true in Hnz. cbv iota in Hnz.
+    rewrite (Hb 2 y), Sy. change (2 =? 2) with true. cbv iota.
+    destruct (N.eqb_spec y B2) as [->|NB].
+    { rewrite Hb, TA. change (2 =? 2) with true. cbv iota. simpl_ne. split; [reflexivity|congruence]. }
+    destruct (N.eqb_spec y A2) as [->|NA].
+    { rewrite Hb, TB. change (2 =? 2) with true. cbv iota. simpl_ne. split; [reflexivity|congruence]. }
+    destruct (W5 y Hy Hnz) as (I2 & I3).
+    remember (beta w 2 y) as z eqn:Ez.
+    assert (Sz : three z = false).
+    { destruct (three z) eqn:Q; [|reflexivity]. apply Three in Q. exfalso. destruct Q as [->|[->| ->]].
+      - rewrite Zl in I2. rewrite <- I2, (W1 2 eq_refl) in Ez. congruence.
+      - fold A2 in I2. congruence.
+      - fold B2 in I2. congruence. }
+    assert (zB : z <> B2) by (intros Q; rewrite Q, G2B in I2; rewrite <- I2 in Sy; assert (three b = true) by (apply Three; tauto); congruence).
+    assert (zA : z <> A2) by (intros Q; rewrite Q, G2A in I2; rewrite <- I2 in Sy; assert (three a = true) by (apply Three; tauto); congruence).
+    rewrite Hb, Sz. change (2 =? 2) with true. cbv iota.
+    rewrite (proj2 (N.eqb_neq z B2) zB), (proj2 (N.eqb_neq z A2) zA). split; assumption.
+  - intros y Hy Hux i Hi. rewrite Hu in Hux. rewrite Hb. destruct (three y) eqn:Sy.
+    + assert (Q : (i <? 3) = true) by (apply N.ltb_lt; exact Hi). rewrite Q. reflexivity.
+    + pose proof (W6 y Hy Hux) as Fr.
+      destruct (i =? 2) eqn:E2; [|apply Fr; exact Hi].
+      destruct (N.eqb_spec y B2) as [->|NB]; [rewrite (Fr 2 eq_refl) in G2B; congruence|].
+      destruct (N.eqb_spec y A2) as [->|NA]; [rewrite (Fr 2 eq_refl) in G2A; congruence|].
+      apply Fr. reflexivity.
+Qed.
+
 End CollapseTopo.
